@@ -59,15 +59,8 @@ func c07(r *core.Run) {
 	for _, fn := range core.SortedFuncs(reach) {
 		var del *core.Effect
 		for _, e := range p.Effects(fn) {
-			if e.Direct || !effHas(e, "Delete", stFiles) {
-				continue
-			}
-			for _, c := range e.Callees {
-				for _, o := range p.StoreOps(c) {
-					if o.Kind == "Delete" && o.Module+"/"+o.Prefix == stFiles {
-						del = e
-					}
-				}
+			if performsDirectly(p, fn, e, "Delete", stFiles) {
+				del = e
 			}
 		}
 		if del == nil {
@@ -123,6 +116,16 @@ func c07(r *core.Run) {
 			for _, st := range fieldStores(al, "SpaceUsed") {
 				var leaves []ssa.Value
 				phiLeaves(st.Val, map[ssa.Value]bool{}, &leaves)
+				// the clamp at zero may be written with the builtin: max(used - footprint, 0)
+				for i := 0; i < len(leaves); i++ {
+					if mc, ok := leaves[i].(*ssa.Call); ok {
+						if b, isB := mc.Call.Value.(*ssa.Builtin); isB && (b.Name() == "max" || b.Name() == "min") {
+							for _, a := range mc.Call.Args {
+								phiLeaves(a, map[ssa.Value]bool{}, &leaves)
+							}
+						}
+					}
+				}
 				for _, lf := range leaves {
 					if bo, ok := lf.(*ssa.BinOp); ok && bo.Op == token.SUB && p.ProvAt(bo.X, "", bo).HasStore(stPay, ".SpaceUsed") {
 						isSub = true
@@ -163,8 +166,9 @@ func c07(r *core.Run) {
 		})
 		var bad bool
 		if unit == fn {
-			bad = p.BypassExistsAvoiding(fn, fn.Blocks[0].Instrs[0], planCall, true, paidOnce) != nil && func() bool {
-				// is there a path entry -> delete that avoids the plan write and the not-plan-paid edges?
+			// is there a way entry -> delete -> return that avoids the plan write (before or after the delete) and
+			// the not-plan-paid edges?
+			if planCall.Block() != del.Instr.Block() {
 				blocked := map[core.Edge]bool{}
 				for e := range paidOnce {
 					blocked[e] = true
@@ -172,8 +176,12 @@ func c07(r *core.Run) {
 				for e := range edgesInto(fn, planCall) {
 					blocked[e] = true
 				}
-				return core.PathExists(fn, blocked, del.Instr, nil)
-			}()
+				for _, ri := range p.Returns(fn) {
+					if core.PathExists(fn, blocked, del.Instr, ri.Ret) {
+						bad = true
+					}
+				}
+			}
 		} else {
 			// the helper is called on every removing path, and inside it only the not-plan-paid edges skip the write
 			bad = !pairedOnAllPaths(p, fn, del.Instr, hop) || p.BypassExistsAvoiding(unit, unit.Blocks[0].Instrs[0], planCall, true, paidOnce) != nil
@@ -189,7 +197,8 @@ func c07(r *core.Run) {
 		filter := storeWrites("storage", "StoragePaymentInfo/value/")
 		guardRow(r, "C07/R2", h, "plan-found", filter, func(*ssa.Function) core.GuardMatch { return foundGuard(p, stPay, true) }, "Found(plan[signer])=true")
 		guardRow(r, "C07/R2", h, "plan-not-expired", filter, func(*ssa.Function) core.GuardMatch {
-			return extBool(p, "time.Time).Before", false, func(pr core.Prov) bool { return pr.HasStore(stPay, ".End") }, ctxIs("BlockTime"))
+			// plan.End >= now at full precision, however it is spelled (!End.Before(now), !now.After(End), ...)
+			return timeGuard(p, func(pr core.Prov) bool { return pr.HasStore(stPay, ".End") }, ctxIs("BlockTime"), ">=", ">")
 		}, "Before(plan.End, now)=false")
 		// the comparison bounds the message's footprint by the remaining space (footprint <= available - used):
 		// the other way round (used + footprint <= available) the sum wraps around for a huge footprint
